@@ -32,7 +32,7 @@ BUDGET = {'quick': {'examples': 6000}, 'thorough': {'examples': 40000, 'shards':
 EPS = 2.0
 TYPE = '_http._tcp.local.'
 NAME = 'dev.' + TYPE
-HOSTS = ['devhost.local.', 'otherhost.local.']
+HOSTS = ['devhost.local.', 'otherhost.local.', NAME]      # the SRV target may be the instance name itself (no separate host name)
 A4 = ['10.1.0.1', '10.1.0.2', '10.1.0.3']
 A6 = ['fe80::11', 'fe80::12']
 PEER = ('10.0.0.9', 5353)
@@ -43,11 +43,11 @@ STATES = ['absent', 'fresh', 'fresh', 'stale', 'expired']
 def scenario(draw) -> Dict[str, Any]:
     timeout = draw(st.sampled_from([200, 500, 1000, 3000, 10000]))
     pre = {
-        'srv': draw(st.sampled_from(STATES)), 'srv_host': draw(st.integers(0, 1)),
+        'srv': draw(st.sampled_from(STATES)), 'srv_host': draw(st.sampled_from([0, 0, 1, 2])),
         'txt': draw(st.sampled_from(STATES)),
         'a': [draw(st.sampled_from(STATES)) for _ in range(draw(st.integers(0, 3)))],
         'aaaa': [draw(st.sampled_from(STATES)) for _ in range(draw(st.integers(0, 2)))],
-        'a_host': draw(st.sampled_from([0, 0, 0, 1])),
+        'a_host': draw(st.sampled_from([0, 0, 0, 1, 2])),
     }
     arrivals = []
     for _ in range(draw(st.integers(0, 4))):
@@ -178,7 +178,7 @@ class Exec:
         if what in ('aaaa', 'all'):
             rrs.append(rr_addr(pre['srv_host'], A6[idx % 2], ttl))
         if what == 'a-other-host':
-            rrs.append(rr_addr(1 - pre['srv_host'], A4[idx % 3], ttl))
+            rrs.append(rr_addr((pre['srv_host'] + 1) % 3, A4[idx % 3], ttl))
         self._inject(w, host, rrs, mid)
 
 
